@@ -106,6 +106,7 @@ def run_until_call(unit, inputs, stop_calls, extra_files=(), consts=None, contra
     it = symex.Interp(ctx, dict(unit.auto_consts(extra_files), **(consts or {})))
     it.tolerant = True
     fn = unit.fn
+    it.note_params(fn)
     if self_ty is None and "::" in fn["path"]: self_ty = fn["path"].split("::")[0]
     env = symex.Env(ctx, {}, TRUE, self_ty)
     for p in fn["sig"]["params"]:
